@@ -107,6 +107,9 @@ def cases(tier):
     # realistic many-layer profiles (exponentially decaying strength, with and without a jet-stream bump)
     for scale_h in (1500., 2500., 4000.):
         yield Case("gctm:exp:H=%g" % scale_h, {"kind": "gctm_exp", "H": scale_h, "tier": tier}, True)
+    # profiles of several hundred to several thousand layers (a pre-binning or blocked implementation starts there)
+    for N in ((513, 4097) if tier == "quick" else (513, 770, 1030, 4097)):
+        yield Case("long:N=%d" % N, {"kind": "long", "N": N, "og": N <= (513 if tier == "quick" else 1030)}, True)
     for name in sorted(FIXED):
         N = len(FIXED[name][0])
         for L in range(1, min(N, 5 if tier == "quick" else 6)):
@@ -121,6 +124,8 @@ def evaluate(p):
         return _gctm(p)
     if p["kind"] == "gctm_exp":
         return _gctm_exp(p)
+    if p["kind"] == "long":
+        return _long(p)
     return _optimal_grouping(p)
 
 
@@ -288,6 +293,42 @@ def _optimal_grouping(p):
     return o
 
 
+def _long(p):
+    """N-layer profile (exponential decay plus a strong layer at the very top, so that losing the last few layers
+    is visible): equivalent layers for several L, optimal grouping (one restart) for L = 3"""
+    from aotools.turbulence import profile_compression as pc
+    o = Out()
+    N = p["N"]
+    h = numpy.linspace(0., 20000., N)
+    cn2 = 1e-13 * numpy.exp(-h / 2500.) + 3e-15 * numpy.exp(-((h - 19800.) / 300.) ** 2)
+    w = 5. + 25. * numpy.exp(-((h - 11000.) / 3000.) ** 2)
+    tot = cn2.sum()
+    for L in (1, 2, 3, 7, 33):
+        sub = "L=%d" % L
+        he, ce, we = pc.equivalent_layers(h.copy(), cn2.copy(), L, w.copy())
+        he, ce, we = (numpy.asarray(x, float) for x in (he, ce, we))
+        o.stat("lib_calls", 1)
+        o.check("el_exactly_L_layers", he.shape == (L,) and ce.shape == (L,), sub=sub)
+        o.check("el_strengths_non_negative", bool(numpy.all(ce >= 0)), sub=sub)
+        o.close("el_total_cn2_conserved", abs(ce.sum() - tot) / tot, 1e-12, sub=sub)
+        m_in = float((cn2 * h ** (5. / 3)).sum())
+        o.close("el_height_moment_conserved", abs(float((ce * he ** (5. / 3)).sum()) - m_in) / m_in, 1e-10, sub=sub)
+        v_in = float((cn2 * w ** (5. / 3)).sum())
+        o.close("el_wind_moment_conserved", abs(float((ce * we ** (5. / 3)).sum()) - v_in) / v_in, 1e-10, sub=sub)
+    if p["og"]:
+        L = 3
+        numpy.random.seed(L)
+        ho, co = pc.optimal_grouping(1, L, h.copy(), cn2.copy())
+        ho, co = numpy.asarray(ho, float), numpy.asarray(co, float)
+        o.stat("lib_calls", 1)
+        o.check("og_exactly_L_layers", ho.shape == (L,) and co.shape == (L,))
+        o.close("og_total_cn2_conserved", abs(co.sum() - tot) / tot, 1e-12)
+        o.check("og_strengths_non_negative", bool(numpy.all(co >= 0)))
+        o.check("og_heights_are_input_heights", all(any(x == y for y in h) for x in ho))
+        o.check("og_heights_increasing", bool(numpy.all(numpy.diff(ho) > 0)))
+    return o
+
+
 def _gctm_exp(p):
     """all three methods on 100-layer profiles whose strength decays exponentially with height (the top slabs are
     orders of magnitude weaker than the ground): L layers, non-negative strengths, totals, moments"""
@@ -304,6 +345,23 @@ def _gctm_exp(p):
             o.check("gctm_exactly_L_layers", hL.shape == (L,) and cL.shape == (L,), sub=sub)
             o.check("gctm_strengths_non_negative", bool(numpy.all(cL >= 0)) and bool(numpy.all(hL >= 0)), sub=sub,
                     detail={"cn2": cL, "h": hL})
+            if L in (2, 3, 5) and bump == 0.0:
+                # the optional scalings are a numerical device: with any sensible choice the returned layers
+                # reproduce the moments of the input profile (in whatever units they are measured)
+                for hs, cs in ((2e4, 1e-13), (1.5e4, 5e-14), (1e4, 1e-14), (1e4, 1e-12), (3e4, 3e-13)):   # (scaled heights <= 2: larger ones make the high moments ill-conditioned for any optimiser)
+                    for form in ("kw", "pos"):
+                        if form == "kw":
+                            hS, cS = pc.GCTM(h.copy(), cn2.copy(), L, h_scaling=hs, cn2_scaling=cs)
+                        else:
+                            hS, cS = pc.GCTM(h.copy(), cn2.copy(), L, hs, cs)
+                        hS, cS = numpy.asarray(hS, float), numpy.asarray(cS, float)
+                        o.stat("lib_calls", 1)
+                        m0 = ref.moments(h / hs, cn2 / cs, L)
+                        m1 = ref.moments(hS / hs, cS / cs, L)
+                        ok_shape = hS.shape == (L,) and cS.shape == (L,)
+                        o.close("gctm_moments_reproduced_with_other_scalings",
+                                float(numpy.linalg.norm(m1 - m0) / numpy.linalg.norm(m0)) if ok_shape else float("inf"), GCTM_TOL,
+                                sub="%s:h_scaling=%g:cn2_scaling=%g:%s" % (sub, hs, cs, form))
             he, ce = pc.equivalent_layers(h.copy(), cn2.copy(), L)
             he, ce = numpy.asarray(he, float), numpy.asarray(ce, float)
             tot = cn2.sum()
